@@ -79,9 +79,26 @@ def context_of(v, job):
     prog = json.dumps(job.get("prog", {}))
     if '"set_gen"' in prog:
         ctx.append("genwrap")
-    if v["prop"] == "C18" or ev.get("e") == "panic":
-        ctx.append("fam=" + str(job.get("fam")))
+    evs = v.get("evs", [])
+    pan = [i for i, e in enumerate(evs) if e.get("e") == "panic" and e.get("user")]
+    if pan and v["prop"] == "C18":
+        i = pan[-1]
+        t = evs[i]["t"]
+        invs = [e for e in evs[:i] if e.get("e") == "inv" and e.get("t") == t]
+        op = invs[-1]["op"] if invs else "?"
+        ctx.append("panic-in=" + op)
+        if evs[i].get("msg", "").startswith("asv: user destructor"):
+            # which value's destructor: the one displaced by this op's own write, the rejected argument, or a third one
+            j0 = max([k for k, e in enumerate(evs[:i]) if e.get("e") == "inv" and e.get("t") == t] or [0])
+            dest = [e["o"] for e in evs[j0:i] if e.get("e") == "destroy" and e.get("t") == t]
+            olds = [e["old"] for e in evs[j0:i] if e.get("e") == "w" and e.get("t") == t]
+            args = [e["v"] for e in evs[j0:i] if e.get("e") == "arg" and e.get("t") == t]
+            d = dest[-1] if dest else -1
+            ctx.append("dtor-of=" + ("displaced" if d in olds else "rejected-argument" if (d in args and not olds and op == "cas") else "other-value"))
+        else:
+            ctx.append("closure")
     return ",".join(ctx)
+
 
 _A = ["one shim event = one atomic access; thread-local code between two accesses is invisible to other threads",
       "executions are sequentially consistent interleavings produced by the baton scheduler (weak-memory clauses are decided by the Mem specification)",
@@ -89,3 +106,45 @@ _A = ["one shim event = one atomic access; thread-local code between two accesse
 
 for _p in ["C01", "C02", "C03", "C04", "C05", "C06", "C10", "C12"]:
     PROPS[_p] = {"level": "model_checking", "conc": True, "assumptions": _A}
+
+
+def _mc(name, expect="ok", timeout=1500, workers=8):
+    return {"spec": "MC_Impl.tla", "cfg": "MC_%s.cfg" % name, "expect": expect, "timeout": timeout, "workers": workers}
+
+
+_NEG = [_mc("bug_confirm", "Refines"), _mc("bug_hslot", "Refines"), _mc("bug_nohelp", "Refines"), _mc("bug_nowalk", "Refines")]
+MC.update({
+    "C01": {"quick": [_mc("rw1"), _mc("rw1_nf0"), _mc("rw1h_nf0"), _mc("lfsw")] + _NEG,
+            "thorough": [_mc("rw1"), _mc("rw1_nf0"), _mc("rw1_nf2"), _mc("rw1h"), _mc("rw1h_nf0"), _mc("lfsw"), _mc("lfsw_nf0"),
+                         _mc("2r1w"), _mc("2r1w_nf0"), _mc("1r2w", timeout=3000), _mc("rculd", timeout=3000)] + _NEG},
+    "C02": {"quick": [_mc("rw1"), _mc("rw1h"), _mc("lfsw_nf0"), _mc("bug_hslot", "Refines")],
+            "thorough": [_mc("rw1"), _mc("rw1h"), _mc("rw1h_nf0"), _mc("lfsw"), _mc("lfsw_nf0"), _mc("2r1w"), _mc("2r1w_nf0"), _mc("rcu2"), _mc("bug_hslot", "Refines")]},
+    "C03": {"quick": [_mc("rw1"), _mc("rw1_nf0"), _mc("lfsw"), _mc("2c"), _mc("bug_confirm", "Refines")],
+            "thorough": [_mc("rw1"), _mc("rw1_nf0"), _mc("rw1_nf2"), _mc("lfsw"), _mc("lfsw_nf0"), _mc("2c"), _mc("2c_nf0"), _mc("2r1w"), _mc("2r1w_nf0"), _mc("rculd", timeout=3000), _mc("bug_confirm", "Refines")]},
+    "C04": {"quick": [_mc("lfsw"), _mc("lfsw_nf0"), _mc("rcust")],
+            "thorough": [_mc("lfsw"), _mc("lfsw_nf0"), _mc("rcust"), _mc("rcu2"), _mc("1r2w", timeout=3000), _mc("1r2w_nf0", timeout=3000)]},
+    "C05": {"quick": [_mc("rcust")], "thorough": [_mc("rcust"), _mc("rcu2"), _mc("rcu2_nf0", timeout=3000), _mc("rculd", timeout=3000)]},
+    "C06": {"quick": [_mc("rcust")], "thorough": [_mc("rcust"), _mc("rcu2"), _mc("rcu2_nf0", timeout=3000), _mc("rculd", timeout=3000)]},
+    "C08": {"quick": [_mc("rw1"), _mc("rw1_nf0"), _mc("rw1h"), _mc("rw1h_nf0")],
+            "thorough": [_mc("rw1"), _mc("rw1_nf0"), _mc("rw1_nf2"), _mc("rw1h"), _mc("rw1h_nf0"), _mc("2r1w"), _mc("2r1w_nf0")]},
+    "C09": {"quick": [_mc("solo_rw1"), _mc("solo_rw1_nf0")],
+            "thorough": [_mc("solo_rw1"), _mc("solo_rw1_nf0"), _mc("solo_rcust")]},
+    "C10": {"quick": [_mc("rw1h"), _mc("rw1h_nf0"), _mc("churn")],
+            "thorough": [_mc("rw1h"), _mc("rw1h_nf0"), _mc("churn"), _mc("churn2")]},
+    "C11": {"quick": [_mc("churn"), _mc("churn_nf0")], "thorough": [_mc("churn"), _mc("churn_nf0"), _mc("churn2")]},
+    "C12": {"quick": [_mc("2c"), _mc("2c_nf0")], "thorough": [_mc("2c"), _mc("2c_nf0")]},
+    "C13": {"quick": [_mc("wrap_fixed"), _mc("wrapw_fixed"), _mc("wrap_code", "Refines")],
+            "thorough": [_mc("wrap_fixed"), _mc("wrapw_fixed"), _mc("wrap_code", "Refines")]},
+    "C18": {"quick": [], "thorough": []},
+})
+for _p in ["C08", "C09", "C11", "C13"]:
+    PROPS[_p] = {"level": "model_checking", "conc": True, "assumptions": _A}
+PROPS["C18"] = {"level": "fault_enumeration", "conc": True, "assumptions": _A + ["panics of RefCnt::inc/clone of third-party pointer types are out of scope"]}
+PROPS["C16"] = {"level": "exploration", "conc": True, "assumptions": _A}
+CONC_PLAN["quick"].append(("panic_help", 400))
+CONC_PLAN["thorough"].append(("panic_help", 4000))
+
+NOT_APPLICABLE = {}
+MANIFEST_TEXT = {
+    "default": {"text": "TLC exhaustively checks the implementation-shaped specification (one action per atomic access) against the observable specification on small configurations; every execution of the real crate under random/PCT/directed schedules is validated by TLC against the observable specification, clause by clause."},
+}
